@@ -124,6 +124,15 @@ impl<T> VpIter<T> {
 /// rule R9: `v.extend(iter)` is rewritten to `vp_vec_extend(&mut v, iter)`
 #[verifier::external_body]
 pub fn vp_vec_extend<T>(v: &mut Vec<T>, it: VpIter<T>) ensures final(v)@ == old(v)@ + it.rest() { unimplemented!() }
+/// rule R9: `it.collect_vec()` (itertools) on any finite iterator
+#[verifier::external_body]
+pub fn vp_collect_vec<T, I: Iterator<Item = T>>(it: I) -> (r: Vec<T>)
+    requires it.obeys_prophetic_iter_laws(),
+    ensures r@ == it.remaining(),
+{ unimplemented!() }
+/// rule R9: `v.reverse()`
+#[verifier::external_body]
+pub fn vp_vec_reverse<T>(v: &mut Vec<T>) ensures final(v)@ == old(v)@.reverse() { unimplemented!() }
 /// rule R9: `LIST.contains(&s)` on a constant list of string literals
 #[verifier::external_body]
 pub fn vp_str_list_contains<const N: usize>(list: &[&str; N], s: &str) -> (r: bool)
